@@ -172,6 +172,9 @@ func cmdFunc(args []string) {
 			if !ok && v.Model != nil {
 				printModel(v)
 			}
+			if !ok && v.Obl.RetPos.IsValid() {
+				fmt.Println("     at return:", w.fset.Position(v.Obl.RetPos))
+			}
 			if !ok && v.SMTFile != "" {
 				fmt.Println("     smt:", v.SMTFile)
 			}
